@@ -128,6 +128,7 @@ type Sim struct {
 	stepHooks    []func()
 	inHook       int
 	timerLog     []TimerReq
+	randLog      []RandReq
 }
 
 // S is the active simulation (nil = passthrough mode).
@@ -431,6 +432,22 @@ type TimerReq struct {
 	Desc string
 	At   time.Duration
 }
+
+// RandReq is one draw requested from the math/rand shim: the caller asked for a value in [0,N).
+type RandReq struct {
+	Task int
+	N    int64
+}
+
+// NoteRand is called by the math/rand shim for every draw.
+func NoteRand(n int64) {
+	if s := S; s != nil && len(s.randLog) < 4000 {
+		s.randLog = push(s.randLog, RandReq{Task: CurrentID(), N: n})
+	}
+}
+
+// RandLog returns every draw requested from the math/rand shim so far (bounded).
+func RandLog() []RandReq { return S.randLog }
 
 // TimerLog returns every timer request made so far (bounded).
 func TimerLog() []TimerReq { return S.timerLog }
